@@ -139,6 +139,13 @@ fn main() {
         let mut rng = vh_common::rng(args.shard_seed(), 1500 + i);
         let mut cfg = HistCfg::random(&mut rng, thorough);
         cfg.tip_before_scan = true;
+        // a third of the histories start next to a 2^16 subtree boundary and learn the completed
+        // subtrees' roots first: shard end heights are then known, so FoundNote extensions reach
+        // UP to the shard end and meet the ChainTip range
+        let j = i + args.shard + args.seed;
+        if j % 3 == 1 {
+            cfg.shard_start = true;
+        }
         let mut mon = C15::default();
         let suggested_mode = i % 3 != 2;
         let res = guard(|| {
@@ -190,6 +197,10 @@ fn main() {
             let ops: Vec<Value> = h.ops.iter().take(30).map(|o| o.to_json()).collect();
             r.sample(&format!("suggested={suggested_mode} rewinds={}", h.rewinds_done.min(1)), json!({"cfg": cfg.to_json(), "first_ops": ops}));
             r.count("rewinds", h.rewinds_done as u64);
+            r.count("subtree_roots_put", h.subtree_roots_put);
+            if h.cfg.shard_start {
+                r.count("histories_starting_at_shard_boundary", 1);
+            }
         });
         if let Err(p) = res {
             r.violation(&format!("C15:panic:{}", panic_class(&p)), p, json!({"cfg": cfg.to_json(), "hist": i}));
